@@ -4,7 +4,7 @@ import random
 
 from harness import progs, progs_alias, progs_calls
 from harness.common import Check
-from harness.e1corpus import Item, describe, run_items
+from harness.e1corpus import Item, describe, run_items, release
 
 BUDGET = {
     "quick": {"shortcut": 30, "arith": 14, "control": 18, "memory": 14, "state": 12, "calls": 16, "alias": 6},
@@ -32,6 +32,8 @@ def run(chk: Check, tier: str):
     batch = 120
     nprog = 0
     for i in range(0, len(items), batch):
+        if i:
+            release(items[i - batch : i])
         outs = run_items(items[i : i + batch], chk)
         nprog += len(items[i : i + batch])
         judge(chk, outs)
